@@ -83,6 +83,14 @@ def base_grid(tier, monitors, gregory_only=False, meek_only=False, symtie=False,
                 if want(rule):
                     jobs.append(job(rule, {'arithmetic': 'fixed', 'precision': 3, 'omega': 2}, 3, 2, 3, 4 if quick else 6, monitors, B,
                                     symtie=symtie, equal=EQUAL_LINES, weight=5))
+        # four candidates, three seats, every full ranking of three candidates (no shorter ones): two elected candidates
+        # passing ballots to each other and on to a third
+        import itertools as _it
+        l3 = [' '.join(map(str, p)) for p in _it.permutations(range(1, 5), 3)]
+        for rule in ('warren', 'meek'):
+            if want(rule):
+                jobs.append(job(rule, {'arithmetic': 'fixed', 'precision': 3, 'omega': 2}, 4, 3, 3, 4 if quick else 5, monitors, B, symtie=symtie,
+                                lines=l3, weight=6))
         if want('meek-prf'):
             for seats in (1, 2):
                 jobs.append(job('meek-prf', {}, 3, seats, 3, (5 if quick else 6), monitors, B, symtie=symtie, weight=4))
